@@ -124,6 +124,12 @@ func decodeUnicodeRune(s *Stream, p unsafe.Pointer) (rune, int64, unsafe.Pointer
 		return rune(0), 0, nil, errors.ErrInvalidCharacter(s.char(), "escaped string", s.totalOffset())
 	}
 
+	for _, c := range s.buf[s.cursor+1 : s.cursor+defaultOffset] {
+		if !(('0' <= c && c <= '9') || ('a' <= c && c <= 'f') || ('A' <= c && c <= 'F')) {
+			// \u is followed by four hexadecimal digits (RFC 8259 section 7)
+			return rune(0), 0, nil, errors.ErrInvalidCharacter(c, "\\u hexadecimal character escape", s.totalOffset())
+		}
+	}
 	r := unicodeToRune(s.buf[s.cursor+1 : s.cursor+defaultOffset])
 	if utf16.IsSurrogate(r) {
 		if !readAtLeast(s, surrogateOffset, &p) {
